@@ -83,6 +83,7 @@ struct Exec {
     bool wireOk = true;
     QString fail;  // harness-level failure (hang detector)
     QMetaObject::Connection logConn;
+    bool raw = false;
 
     Exec(Ctx &ctx, LoopPeer &peer, qint64 &expectBytes) : ctx(ctx), peer(peer), expectBytes(expectBytes) { }
     ~Exec()
@@ -239,7 +240,7 @@ struct Exec {
     // projection of the entries logged since the last step
     QJsonObject takeOut()
     {
-        QJsonArray out;
+        QJsonArray out, rawOut;
         int nr = 0;
         QByteArray bytes;
         for (; logPos < log.size(); logPos++) {
@@ -249,6 +250,9 @@ struct Exec {
             }
             bytes += e.text.toUtf8();
             const auto &t = e.text;
+            if (raw) {
+                rawOut.append(t);
+            }
             if (t.startsWith("<?xml") || t.startsWith("<stream:stream") || t.startsWith("</stream:stream")) {
                 continue;
             }
@@ -289,7 +293,11 @@ struct Exec {
         if (got != bytes) {
             wireOk = false;
         }
-        return { { "out", out }, { "nr", nr } };
+        QJsonObject o { { "out", out }, { "nr", nr } };
+        if (raw) {
+            o["raw"] = rawOut;  // --raw=1: the exact elements, for replay files and demonstrations
+        }
+        return o;
     }
 
     QJsonObject observe()
@@ -472,6 +480,7 @@ QXV_DRIVER(sm)
         auto id = QString("s%1").arg(++n);
         TestClient::resetIdCounter();
         Exec x(ctx, peer, expectBytes);
+        x.raw = ctx.optInt("raw", 0) != 0;
         x.create();
         expectBytes = peer.totalReceived;
         bool ok = x.connectAndNegotiate(true);
